@@ -191,6 +191,37 @@ struct Setup {
     sd: Vec<f64>,
     watertight: bool,
     convex: bool,
+    /// the cutting plane in the mesh's own frame: normal and offset
+    local: (Vector3, f64),
+}
+
+/// Perimeter of the section of the ideal cuboid [0,w] x [0,h] x [0,d] by the plane n . x = off, computed from
+/// the requested dimensions alone (the crossings of the twelve edges, ordered around their centroid)
+fn cuboid_section_perimeter(dims: [f64; 3], n: &Vector3, off: f64) -> f64 {
+    let c = |i: usize| Point3::new(if i & 1 != 0 { dims[0] } else { 0.0 }, if i & 2 != 0 { dims[1] } else { 0.0 }, if i & 4 != 0 { dims[2] } else { 0.0 });
+    let mut pts: Vec<Point3> = Vec::new();
+    for a in 0..8usize {
+        for bit in [1usize, 2, 4] {
+            if a & bit == 0 {
+                let (p, q) = (c(a), c(a | bit));
+                let (sa, sb) = (n.dot(&p.coords) - off, n.dot(&q.coords) - off);
+                if (sa > 0.0) != (sb > 0.0) {
+                    pts.push(p + (q - p) * (sa / (sa - sb)));
+                }
+            }
+        }
+    }
+    if pts.len() < 3 {
+        return 0.0;
+    }
+    let cen = pts.iter().fold(Vector3::zeros(), |s, p| s + p.coords) / pts.len() as f64;
+    let u = (pts[0].coords - cen).normalize();
+    let w = n.normalize().cross(&u);
+    pts.sort_by(|a, b| {
+        let (va, vb) = (a.coords - cen, b.coords - cen);
+        va.dot(&w).atan2(va.dot(&u)).partial_cmp(&vb.dot(&w).atan2(vb.dot(&u))).unwrap()
+    });
+    (0..pts.len()).map(|i| (pts[(i + 1) % pts.len()] - pts[i]).norm()).sum()
 }
 
 fn setup(case: &Case) -> Setup {
@@ -228,7 +259,7 @@ fn setup(case: &Case) -> Setup {
         _ => Mesh::new(v.clone(), f.clone(), watertight),
     };
     let sd: Vec<f64> = v.iter().map(|p| plane.signed_distance_to_point(p)).collect();
-    Setup { v, f, mesh, plane, sd, watertight, convex }
+    Setup { v, f, mesh, plane, sd, watertight, convex, local: (n.into_inner(), d) }
 }
 
 /// Does a boundary (count-1) edge straddle the plane? Then the section polyline is open.
@@ -334,6 +365,11 @@ pub fn judge(case: &Case, l: &mut Local) {
         }
         l.check("each plane-face crossing is used exactly once", "", nseg == ref_segments, mk, || format!("{} segments for {} crossing faces in {} curves", nseg, ref_segments, curves.len()));
         l.check("total section length equals the sum of the crossing segments", "", (tot_len - ref_len).abs() <= 1e-6 * (1.0 + ref_len), mk, || format!("{} vs {}", tot_len, ref_len));
+        // for the generated boxes the expected section also follows from the requested dimensions alone
+        if let Some(dims) = match case.mesh.as_str() { "box1" => Some([2.0, 3.0, 4.0]), "box2" => Some([1.0, 1.0, 1.0]), "box3" => Some([10.0, 0.5, 2.0]), _ => None } {
+            let want = cuboid_section_perimeter(dims, &s.local.0, s.local.1);
+            l.check("the section of a generated box is the section of the requested cuboid", "", (tot_len - want).abs() <= 1e-6 * (1.0 + want), mk, || format!("section length {} but the {:?} cuboid gives {}", tot_len, dims, want));
+        }
         if s.convex && ref_segments > 0 {
             l.check("a convex solid has a single section loop", "", curves.len() == 1, mk, || format!("{} curves", curves.len()));
         }
